@@ -12,11 +12,14 @@ from ..util import (has_call, find_calls, assigned_value, const_str, unparse, kw
                     guards_of, call_tail, control_ancestors)
 from .. import mutate as M
 
+TECHNIQUE = "static analysis: sibling cross-check over the computed family of filters that store <interaction>['actions'] (same transformer, same parameters, targets rebuilt), stateful-instance sharing rule, current-row re-chunking rule, whole-row memo-key rule"
+
 EXPLANATION = ("Sibling rules over every EnvironmentFilter that stores new['actions'] (family computed from the class "
                "hierarchy): R1 each functional target (rewards, feedbacks) is rebuilt from (new actions, old target applied "
                "to old actions) or the change is container-only; R2 the same transformer is applied to new['action']; R3 the "
                "transformer used for action is parameterised like the one used for actions; R4 Finalize wraps list rewards "
                "around the post-Repr actions and the reward classes compare by equality.")
+EXPLANATION += " R5: filters owning a table grown while reading are instantiated once per environment; R6: flat action streams are cut by the current row's length; R7: the encoding memo is keyed by whole-row equality."
 
 EF = "coba/environments/filters.py"
 PRIM = "coba/primitives.py"
